@@ -102,6 +102,13 @@ func c03DocText(d *model.Document, err error) string {
 		fmt.Fprintf(&b, "page %d:", p.Number)
 		for _, e := range p.Elements {
 			fmt.Fprintf(&b, "%T|", e)
+			if t, ok := e.(*model.Table); ok {
+				for _, row := range t.Rows {
+					for _, c := range row {
+						fmt.Fprintf(&b, "[%q %dx%d]", c.Text, c.RowSpan, c.ColSpan)
+					}
+				}
+			}
 		}
 		b.WriteString(p.ExtractText())
 	}
@@ -348,7 +355,7 @@ func init() {
 		{
 			cm := "/CIDInit /ProcSet findresource begin 12 dict begin begincmap 1 begincodespacerange <00> <FF> endcodespacerange 3 beginbfchar <41> <0058> <42> <0059> <43> <005A> endbfchar endcmap end end"
 			res := "<< /Font << /F1 5 0 R >> /XObject << /Fm 7 0 R >> >>"
-			form := c02StreamObj("/Type /XObject /Subtype /Form /BBox [0 0 200 200] /Resources << /Font << /F1 8 0 R >> >>", []byte("BT /F1 10 Tf 10 10 Td (ABC) Tj ET"))
+			form := c02StreamObj("/Type /XObject /Subtype /Form /BBox [0 0 200 200] /Resources << /Font << /F1 8 0 R >> >>", []byte("BT /F1 10 Tf 10 10 Td (ABC) Tj <41 4243> Tj ET"))
 			pdf := c02RawPDF([]string{
 				"<< /Type /Catalog /Pages 2 0 R >>",
 				"<< /Type /Pages /Kids [3 0 R 4 0 R] /Count 2 /Resources 6 0 R /MediaBox [0 0 612 792] >>",
@@ -397,7 +404,7 @@ func init() {
 					}
 				}
 				rd.Close()
-				r.Check(okR && strings.Contains(alone[0], "XYZ") && strings.Contains(alone[1], "ABC page two"), "history:pages-of-one-reader", why, Bs(path))
+				r.Check(okR && strings.Contains(alone[0], "XYZ|XYZ|") && strings.Contains(alone[0], "ABC after the form") && strings.Contains(alone[1], "ABC page two"), "history:pages-of-one-reader", why+" (page one alone: "+alone[0]+")", Bs(path))
 			} else {
 				r.Check(false, "history:pages-of-one-reader", "generated document does not open: "+err.Error(), Bs(path))
 			}
@@ -425,13 +432,29 @@ func init() {
 				ms = append(ms, zipMember{Name: "ppt/notesSlides/notesSlide1.xml", Data: []byte(notes)})
 				ms = append(ms, zipMember{Name: "ppt/slides/_rels/" + base + ".rels", Data: []byte(`<?xml version="1.0"?><Relationships xmlns="http://schemas.openxmlformats.org/package/2006/relationships"><Relationship Id="rIdN" Type="http://schemas.openxmlformats.org/officeDocument/2006/relationships/notesSlide" Target="../notesSlides/notesSlide1.xml"/></Relationships>`)})
 			}
+			// word-processor documents with a heading, a list and a table whose cells hold several paragraphs,
+			// pipes and a span; an HTML page with the same kinds of content
+			wpb := []wpBlock{
+				{kind: 1, level: 1, inl: []wpInline{{0, "Title of the document"}}},
+				{kind: 0, inl: []wpInline{{0, "First paragraph, with a tab"}, {1, ""}, {0, "and a break"}, {2, ""}, {0, "inside."}}},
+				{kind: 2, level: 0, listID: 1, inl: []wpInline{{0, "item one"}}},
+				{kind: 2, level: 1, listID: 1, inl: []wpInline{{0, "item one a"}}},
+				{kind: 3, table: [][]wpCell{
+					{{paras: []string{"first para", "second para"}, span: 1, rows: 1}, {paras: []string{"a | b"}, span: 1, rows: 1}},
+					{{paras: []string{"wide cell"}, span: 2, rows: 1}},
+					{{paras: []string{"x", "y", "z"}, span: 1, rows: 1}, {paras: []string{""}, span: 1, rows: 1}},
+				}},
+				{kind: 0, inl: []wpInline{{0, "Last paragraph."}}},
+			}
+			htmlDoc := `<html><body><h1>Title</h1><p>Para one</p><ul><li>item<ul><li>inner</li></ul></li></ul>` +
+				`<table><tr><th>h | 1</th><th>h2</th></tr><tr><td>line one<br>line two</td><td colspan="1">c | d</td></tr></table><pre>code | here</pre></body></html>`
 			files := map[string]string{
-				"docx": tmpFile(r, ".docx", writeZip(mkDOCXSimple(ws("Docx", 4)))),
-				"odt":  tmpFile(r, ".odt", writeZip(mkODTSimple(ws("Odt", 4)))),
+				"docx": tmpFile(r, ".docx", writeZip(mkDOCXBlocks(wpb, "", ""))),
+				"odt":  tmpFile(r, ".odt", writeZip(mkODTBlocks(wpb))),
 				"xlsx": tmpFile(r, ".xlsx", writeZip(mkXLSXSimple(ws("Cell", 5)))),
 				"pptx": tmpFile(r, ".pptx", writeZip(ms)),
 				"epub": tmpFile(r, ".epub", writeZip(mkEPUBSimple(ws("Chapter", 3)))),
-				"html": tmpFile(r, ".html", mkHTMLSimple(ws("Para", 4))),
+				"html": tmpFile(r, ".html", []byte(htmlDoc)),
 			}
 			for _, ops := range c03Readers() {
 				c03OneReader(r, ops, files[ops.format])
@@ -557,6 +580,6 @@ func init() {
 		r.Case(L(I(0)), L(), "mutable-globals", true)
 		r.Case(L(I(1)), L(Bs("tables.globalRegistry")), "globals-with-method-calls", true)
 		r.Case(L(I(2)), L(Bs("font.MacRomanEncoding (returned)"), Bs("font.PDFDocEncoding (returned)"), Bs("font.StandardEncodingTable (returned)"), Bs("font.SymbolEncoding (returned)"), Bs("font.WinAnsiEncoding (returned)"), Bs("font.ZapfDingbatsEncoding (returned)")), "aliased-globals", true)
-		r.Case(L(I(3)), L(Bs("core.Dict.Keys: append keys"), Bs("core.Dict.String: append parts"), Bs("epubdoc.Reader.findNCX: early return"), Bs("epubdoc.Reader.findNavDocument: early return"), Bs("reader.Reader.ExtractPageImages: append images"), Bs("reader.Reader.ResolveDeep: early return"), Bs("resolver.ObjectResolver.resolve: early return"), Bs("tables.DetectorRegistry.List: append names")), "map-order-sinks", true)
+		r.Case(L(I(3)), L(Bs("core.Dict.Keys: append keys"), Bs("core.Dict.String: append parts"), Bs("epubdoc.Reader.findNCX: early return"), Bs("epubdoc.Reader.findNavDocument: early return"), Bs("reader.Reader.ExtractPageImages: append images"), Bs("reader.Reader.resolveDeep: early return"), Bs("resolver.ObjectResolver.resolve: early return"), Bs("tables.DetectorRegistry.List: append names")), "map-order-sinks", true)
 	}
 }
